@@ -23,6 +23,13 @@ reg('C07', 'exhaustive string enumeration × fixed configs + Hypothesis (strings
     '≤3-edit mutants of valid abbreviations. Anything escaping other than the two parse errors (with pos in range) is bucketed by root cause.',
     'Termination is decided by a 20 s CPU-time watchdog per call (normal cost < 10 ms); repeat counts are bounded by the generator. Malformed user snippets are outside the domain.')
 
+reg('C19', 'exhaustive token-sequence/string enumeration + Hypothesis expression trees; differential against an exact Fraction evaluator with a rigorous float error bound; validity predicate for extract()',
+    'evaluate(): every sequence of ≤ 5 (quick) / ≤ 7 (thorough) tokens over 4 numbers, 5 operators and parentheses, every string ≤ 5/6 over a 12-character '
+    'alphabet, and random expression trees are compared with a reference parser that implements the stated precedence and evaluates exactly; '
+    'extract(): every string ≤ 5/6 over 8 characters × every position × 3 option sets is checked against the range/charset/balance/end predicate.',
+    'Cases where floor() lies within the float error bound of a discontinuity and unparenthesised chains mixing \\ with * or / are skipped (counted in evidence). '
+    'Which malformed texts must raise is only asserted for foreign characters, a trailing binary operator and an unclosed parenthesis.')
+
 NOT_APPLICABLE = [
 ]
 
